@@ -112,6 +112,10 @@ def run_scenario(run: Run, scen: dict, rng: random.Random):
                         if k == 1:
                             cols.append(g[:, v])
                         else:
+                            if not g[:, v].requires_grad:
+                                # the first derivative is constant in x (degree <= 1): the second one is 0
+                                cols.append(torch.zeros(len(rows)))
+                                continue
                             g2, = torch.autograd.grad(g[:, v].sum(), x, retain_graph=True, allow_unused=True)
                             cols.append(g2[:, v] if g2 is not None else torch.zeros(len(rows)))
                     exp.append(torch.stack(cols, dim=1))
